@@ -565,6 +565,21 @@ def _mutable_global(project: Project, dotted: str) -> bool:
     return False
 
 
+def check_pu_lazy(project: Project, rep):
+    """PU-LAZY: a public method of a landscape class reads what compute_landscape stores lazily only behind the computation —
+    otherwise the first call answers from the place-holder and the same call after any other computing call answers from the
+    data (rule text: lazy_rule)"""
+    from . import lazy_rule
+    ops = ("__add__", "__sub__", "__neg__", "__mul__", "__rmul__", "__truediv__")
+    n = 0
+    for cq in (lazy_rule.EXACT, lazy_rule.APPROX):
+        n += lazy_rule.check_class(project, rep, cq, "PU-LAZY", others_for=ops,
+                                   why=": the same call gives a different result once another call has computed the landscape")
+    n += lazy_rule.check_functions(project, rep, "PU-LAZY",
+                                   why=": the same call gives a different result once another call has computed the landscape")
+    return n
+
+
 def check_pu_share(project: Project, oa, rep, eps, rule="PU-SHARE"):
     """no public function hands out a reference to a module-level mutable object — as an attribute of the object it builds
     (`self.params = _DEFAULT_PARAMS`) or as its return value: whoever edits what they were given (an imager's parameter
@@ -621,6 +636,8 @@ def _positive_examples(rep):
         "PU-INTARITH": check_pu_intarith(pp, scratch)[0],
         "PU-SHARE": check_pu_share(pp, oa, scratch, eps)[0],
     }
+    from . import lazy_rule as _lz
+    _lz.positive_examples()
     sh = [x for x in scratch.refutations if x["rule"] == "PU-SHARE"]
     if not any("SharesDefaults" in x["function"] for x in sh):
         raise AnalysisError("positive example: PU-SHARE did not flag SharesDefaults.__init__")
@@ -692,6 +709,8 @@ def run(project: Project, rep, tier: str):
     _, rng_sites = check_pu_rng(project, oa, rep)
     rep.floor("PU-RNG", 1)
     check_pu_share(project, oa, rep, eps)
+    check_pu_lazy(project, rep)
+    rep.floor("PU-LAZY", 20)
     check_pu_plt(project, oa, rep)
     _, dsites = check_pu_dtype(project, rep)
     rep.floor("PU-DTYPE", 3)
